@@ -85,6 +85,7 @@ pub fn loop_scenario(
         nontrivial: true,
         unbounded: false,
         loop_body: true,
+        sometimes: vec![],
     }
 }
 
@@ -413,5 +414,6 @@ pub fn select_scenario(
         nontrivial: true,
         unbounded: false,
         loop_body: false,
+        sometimes: vec![],
     }
 }
